@@ -232,8 +232,11 @@ func (p *nodeInterp) LoadExpr(node ast.Node) string {
 	}
 	pos := p.fset.Position(start)
 	f := p.files[pos.Filename]
-	n := int(node.End() - start)
-	return string(f.Code[pos.Offset : pos.Offset+n])
+	end := pos.Offset + int(node.End()-start)
+	if end > len(f.Code) { // the End() of a node of a partial AST may lie past the end of the file
+		end = len(f.Code)
+	}
+	return string(f.Code[pos.Offset:end])
 }
 
 type loader interface {
